@@ -208,7 +208,11 @@ pub fn printed_times(stdout: &str) -> Vec<(u64, u32, bool)> {
 
 fn key_arg(keys: &Keys, opt: &str) -> Option<String> {
     let pk = interp::pk_of_seed(&keys.ltk);
-    match opt { "hex" => Some(hex(&pk)), "b64" => Some(b64_padded(&pk)), _ => None }
+    match opt {
+        "hex" => Some(hex(&pk)), "b64" => Some(b64_padded(&pk)),
+        "HEX" => Some(hex(&pk).to_uppercase()),
+        "HeX" => Some(hex(&pk).chars().enumerate().map(|(i, c)| if i % 3 == 0 { c.to_ascii_uppercase() } else { c }).collect()),
+        _ => None }
 }
 
 fn b64_padded(d: &[u8]) -> String {
@@ -416,8 +420,9 @@ pub fn record(out_path: &str, client_bin: &str, seed: u64, tier: &str) {
         let unit: u64 = if v == Proto::Google { 1_000_000 } else { 1 };
         let midpoints: Vec<u64> = vec![0, 1, 999_999, 1_000_000, now_midp(v), ((1u64 << 31) - 1) * unit, (1u64 << 32) * unit + (unit - 1).min(999_999),
                                         7_258_118_400 * unit, 253_402_300_799 * unit + (unit - 1).min(999_999)];
-        for keyopt in ["none", "hex", "b64"] {
+        for keyopt in ["none", "hex", "b64", "HEX", "HeX"] {       // (hexadecimal is hexadecimal in either case)
             for (k, (n, i)) in batch_shapes.iter().enumerate() {
+                if (keyopt == "HEX" || keyopt == "HeX") && k >= 3 && !thorough { continue; }
                 let mids: Vec<u64> = if thorough || k < 3 { midpoints.clone() } else { vec![midpoints[(k + 4) % midpoints.len()], now_midp(v)] };
                 for midp in mids {
                     let mut served = vec![];
